@@ -35,7 +35,7 @@ def bounds_oracle(rep, rec):
     n = len(t)
     Tf = T.reshape(n, -1); Wf = W.reshape(n, -1)
     Teql = c["T_eq"] - c["depression"]
-    tn = float(S.results["t_nuc"].iloc[0]) * 60
+    tn = float(S.results["t_nuc"].iloc[rec.get("row", 0)]) * 60
     if not (np.isfinite(Tf).all() and np.isfinite(Wf).all()):
         rep.violation("non-finite", "%s: non-finite values reported" % lab, dict(run=lab)); return
     hi = max(S.opcond.cooling["start"], Teql)
@@ -94,6 +94,22 @@ def check(rep, tier):
                    "2D: one-step correspondence with the in-place sweep model model/Sn2D.v; cooling-stage max principle proved for that sweep, its hypotheses evaluated on every 2D run (counts inside/outside-stability 2D)"]
     recs = sr.catalogue(rng, tier, n0=3, n1=3 if tier == "quick" else 9, n2=1 if tier == "quick" else 5)
     recs += sr.catalogue(rng, tier, dims=("homogeneous", "spatial_1D"), cn=True, n0=1, n1=1)
+    recs += sr.catalogue(rng, tier, dims=("spatial_1D",), confs=["shelf"], n1=1 if tier == "quick" else 3, wide_depression=True)
+    # a study of several repetitions on ONE object (sequential): the reported trajectory is the last repetition's
+    for dim in (["spatial_1D"] if tier == "quick" else ["spatial_1D", "homogeneous", "spatial_2D"]):
+        prog = dict(start=10, end=-50, rate=2.0 / 60, holds=[], t_tot=3600.0, dt=1.0)
+        h, d = (0.01, 0.01) if dim == "homogeneous" else (0.05, 0.05)
+        S = sr.make(dim=dim, conf="shelf", height=h, diameter=d, K=200, prog=prog, Nrep=5)
+        dt, _ = sr.step_info(S)
+        if dim != "homogeneous":
+            prog["t_tot"] = float(int(dt * 9800)); S = sr.make(dim=dim, conf="shelf", height=h, diameter=d, K=200, prog=prog, Nrep=5)
+        rec = dict(label="%s/shelf study Nrep=5 sequential (last repetition reported)" % dim, dim=dim, conf="shelf", S=S, dt=dt, prog=prog, error=None, row=-1, study=True)
+        try:
+            with impl.quiet():
+                S.run(how="sequential")
+        except Exception as e:
+            rec["error"] = e
+        recs.append(rec)
     c1, c0, l1, l0, c2, l2 = [], [], [], [], [], []
     for rec in recs:
         lab = rec["label"]
@@ -104,6 +120,8 @@ def check(rep, tier):
         rep.count(rec["dim"] + "/" + rec["conf"]); rep.count(("inside-stability" if st["inside"] else "outside-stability") + (" 2D" if rec["dim"] == "spatial_2D" else ""))
         if st["inside"]:
             bounds_oracle(rep, rec)
+        if rec.get("study"):
+            continue
         if rec["dim"] == "spatial_1D":
             txt, info = sr.sn1d_case(rec["S"], rec["dt"], rng); c1.append(txt); l1.append(lab)
         elif rec["dim"] == "homogeneous":
